@@ -15,7 +15,7 @@ PROP = dict(
         "Comdex.C10.bidders_pay_le_target_counterexample", "Comdex.C10.bidders_receive_le_collateral_counterexample",
         "Comdex.C10.open_books_exact", "Comdex.C10.bid_moves_exactly",
         "Comdex.C10.bid_at_posted_price", "Comdex.C10.bid_at_posted_price_exhausted", "Comdex.C10.bid_at_posted_price_exhausted_requested",
-        "Comdex.C10.close_proceeds_distributed", "Comdex.C10.close_custody_accounted",
+        "Comdex.C10.close_proceeds_distributed", "Comdex.C10.lend_close_split", "Comdex.C10.close_custody_accounted",
         "Comdex.C10.close_distributes_all_partial", "Comdex.C10.close_distributes_all_counterexample",
         "Comdex.C10.v1_bidders_pay_le_target_and_receive_le_collateral", "Comdex.C10.v1_custody_exact",
         "Comdex.C10.v1_bid_moves_and_close_distributes", "Comdex.C10.v1_bid_at_posted_price",
